@@ -896,7 +896,6 @@ func factsOn(ve valEdge) []an.Fact {
 	return fs
 }
 
-
 // overwrittenUnder: the default stored by st into cell is replaced by another store on the edge ct == graphql-response+json
 // (`f := statusFor; if ct == … { f = statusForGraphQLResponse }`): the default then only survives on the != edge.
 func overwrittenUnder(st *ssa.Store, cell ssa.Value, guarded func([]an.Fact, token.Token) bool) bool {
